@@ -503,6 +503,9 @@ pub struct GenParams {
     /// size of one big PROGBITS section (0 = none): reads larger than any plausible
     /// internal chunk size
     pub big: usize,
+    /// this many extra tiny sections (0 = none): tables beyond any plausible small-table
+    /// threshold (64, 128, 256 entries)
+    pub many_sections: usize,
 }
 
 impl GenParams {
@@ -570,6 +573,11 @@ impl GenParams {
             extra_phdrs: rng.urange(0, 3),
             dup_kinds: rng.chance(1, 12),
             xnum_zero: rng.chance(1, 14),
+            many_sections: if small || !rng.chance(1, 24) {
+                0
+            } else {
+                *rng.pick(&[60usize, 64, 70, 100, 128, 130, 200, 256, 260, 300])
+            },
             big: if small {
                 0
             } else if thorough && rng.chance(1, 16) {
@@ -619,6 +627,7 @@ impl GenParams {
             .with("xindex", J::Bool(self.xindex))
             .with("xnum_zero", J::Bool(self.xnum_zero))
             .with("big", J::u(self.big as u64))
+            .with("many_sections", J::u(self.many_sections as u64))
             .with("no_shstrtab", J::Bool(self.no_shstrtab))
             .with("max_pad", J::u(self.max_pad as u64))
             .with("nsyms", J::u(self.nsyms as u64))
@@ -650,6 +659,8 @@ impl GenParams {
             }
         }
         v | ((self.layout as u64) << 16) | ((self.notes.min(3) as u64) << 18) | ((self.xnum_zero as u64) << 20)
+            | (((self.many_sections > 0) as u64) << 21)
+            | (((self.big > 0) as u64) << 22)
     }
 }
 
@@ -838,6 +849,17 @@ pub fn build(rng: &mut Rng, p: &GenParams) -> Vec<u8> {
             flags: SHF_ALLOC | 4,
             data: d,
             align: 16,
+            ..Default::default()
+        });
+    }
+    for i in 0..p.many_sections {
+        let mut d = vec![0u8; rng.urange(0, 8)];
+        rng.fill(&mut d);
+        secs.push(Sec {
+            name: format!(".m{}", i),
+            typ: hdr::SHT_PROGBITS,
+            data: d,
+            align: 1,
             ..Default::default()
         });
     }
